@@ -151,6 +151,10 @@ func cmdCLI(args []string) {
 				flags = append(flags, "-nameFilter", "^e_", "-excludeNames", n1)
 			case "unknownProfile":
 				flags = append(flags, "-profile", "no_such_profile")
+			case "emptyName":
+				flags = append(flags, "-includeNames", " , ")
+			case "emptyNameAmongNames":
+				flags = append(flags, "-excludeNames", n1+",")
 			}
 			cfg := lint.NewEmptyConfig()
 			switch s.Cfg {
